@@ -737,7 +737,72 @@ func c03SQL(c *fw.Ctx, idx int) {
 			c.Fail("sql-scan-error", "wkb.Geom rejected the standard encoding of a %s: %v", srcKind, err)
 			return
 		}
-		expectGeom(c, "wkb.Geom Scan", gw.T, exp, model.Opts{})
+		if !expectGeom(c, "wkb.Geom Scan", gw.T, exp, model.Opts{}) {
+			return
+		}
+		// ... gives back the same geometry and the same standard encoding,
+		// keeps it when handed an empty value, and rejects a non-[]byte source
+		var v2 driver.Value
+		var g2 geom.T
+		if c.Guard("panic", func() { g2 = gw.Geom(); v2, err = (&wkb.Geom{T: t}).Value() }) {
+			return
+		}
+		c.Eval(2)
+		if g2 != gw.T {
+			c.Fail("sql-value-differs", "wkb.Geom.Geom() does not return the scanned geometry")
+			return
+		}
+		if vb2, ok := v2.([]byte); err != nil || !ok || !bytes.Equal(vb2, want) {
+			c.Fail("sql-value-differs", "wkb.Geom Value() gave err=%v, %T differing from the standard NDR encoding", err, v2)
+			return
+		}
+		if c.Guard("panic", func() { err = gw.Scan([]byte{}) }) {
+			return
+		}
+		if err != nil || gw.T != g2 {
+			c.Fail("sql-scan-error", "wkb.Geom Scan of an empty value: err=%v, geometry kept=%v", err, gw.T == g2)
+			return
+		}
+		if c.Guard("panic", func() { err = gw.Scan("a string") }) {
+			return
+		}
+		var e1 wkb.ErrExpectedByteSlice
+		if err == nil || !errors.As(err, &e1) {
+			c.Fail("sql-non-bytes", "wkb.Geom Scan(string) returned %v, want the expected-byte-slice error", err)
+			return
+		}
+		c.Count("sql_generic_wrapper")
+	} else {
+		// an SQL NULL: the ewkb wrappers take it as "no geometry"
+		dn := mk(srcKind, t)
+		var vn driver.Value
+		if c.Guard("panic", func() { err = dn.Scan(nil) }) {
+			return
+		}
+		c.Eval(1)
+		if err != nil {
+			c.Fail("sql-scan-error", "%s %s wrapper Scan(nil) failed: %v", m.name, srcKind, err)
+			return
+		}
+		type valider interface{ Valid() bool }
+		if vd, ok := dn.(valider); ok {
+			valid := true
+			if c.Guard("panic", func() { valid = vd.Valid(); vn, err = dn.Value() }) {
+				return
+			}
+			if valid || vn != nil || err != nil {
+				c.Fail("sql-null", "%s %s wrapper after Scan(nil): Valid()=%v Value()=(%v, %v), want false and (nil, nil)", m.name, srcKind, valid, vn, err)
+				return
+			}
+			if c.Guard("panic", func() { valid = mk(srcKind, t).(valider).Valid() }) {
+				return
+			}
+			if !valid {
+				c.Fail("sql-null", "%s %s wrapper holding a geometry reports Valid() = false", m.name, srcKind)
+				return
+			}
+			c.Count("sql_null_handled")
+		}
 	}
 }
 
